@@ -26,7 +26,7 @@ var c12 = core.Register(&core.Prop{
 	Shards: func(tier string) int { return pickTier(tier, 8, 16) },
 	Floors: func(c map[string]int64, tier string) []string {
 		var out []string
-		for _, k := range []string{"wellformed_checked", "malformed_checked", "malformed:separator", "malformed:exponent", "malformed:identifier", "with_separator", "over_34_digits", "embedded_malformed", "literal_sequences"} {
+		for _, k := range []string{"wellformed_checked", "malformed_checked", "malformed:separator", "malformed:exponent", "malformed:identifier", "with_separator", "over_34_digits", "embedded_malformed", "literal_sequences", "followers_blank", "followers_identifier_character"} {
 			if c[k] == 0 {
 				out = append(out, "coverage floor: no "+k)
 			}
@@ -228,6 +228,63 @@ var litEmbeds = []string{"[%s]", "f(%s)", "%s + 1", "1 + %s", "a ? %s : 1", "-%s
 // embeddings that leave the literal's value as the element's value
 var litValueEmbeds = map[string]bool{"(%s)": true, "true ? %s : 0": true, "(0, %s)": true, "$v = %s": true}
 
+// LitFollowCase: what stands immediately behind a literal. White space and line breaks of the ES sets end the literal and
+// leave its value alone; an identifier character (of the ES5 classes, far beyond ASCII) makes the text a syntax error.
+type LitFollowCase struct {
+	Lit string `json:"lit"`
+	CP  rune   `json:"cp"`
+}
+
+var c12Follow = core.Mon(c12, "literal-followers", func(w *core.W, c *LitFollowCase) {
+	w.Eval(1)
+	f := string(c.CP)
+	switch {
+	case ref.IsSpaceOpen(c.CP):
+		w.Skip("follower-left-open")
+		return
+	case ref.IsSpace(c.CP) || ref.IsLineBreak(c.CP):
+		want, ok := ref.ParseDec(strings.ReplaceAll(c.Lit, "_", ""))
+		if !ok {
+			return
+		}
+		w.Count("followers_blank")
+		w.Nontrivial(fmt.Sprintf("follow:%s|%x", c.Lit, c.CP))
+		srcs := []string{"[" + c.Lit + f + "]", "[(" + c.Lit + f + ")]"}
+		if want.Digits() <= 34 {
+			srcs = append(srcs, "["+c.Lit+f+"+"+f+"0]", "[0"+f+"+"+f+c.Lit+f+"]") // (arithmetic rounds to 34 digits)
+		}
+		for _, src := range srcs {
+			v, err, panicked, pv := evalArray1(src, nil)
+			if panicked || err != nil {
+				w.Violation("literal-followers", "C12/wellformed-rejected", c, want.String(), fmt.Sprint(pv, err), fmt.Sprintf("literal %q followed by the blank U+%04X: %q", c.Lit, c.CP, src))
+				return
+			}
+			d, ok := elem0(v)
+			if !ok || !obs.DecOf(d).Equal(want) {
+				w.Violation("literal-followers", "C12/wrong-value", c, want.String(), show(v), fmt.Sprintf("literal %q followed by the blank U+%04X: %q", c.Lit, c.CP, src))
+				return
+			}
+		}
+	case ref.IsIDPart(c.CP) && !(c.CP >= '0' && c.CP <= '9') && c.CP != 'e' && c.CP != 'E' && c.CP != '_':
+		w.Count("followers_identifier_character")
+		w.Nontrivial(fmt.Sprintf("follow:%s|%x", c.Lit, c.CP))
+		for _, src := range []string{c.Lit + f, "[" + c.Lit + f + ", 3]", "f(" + c.Lit + f + ")", c.Lit + f + " + 1"} {
+			var err error
+			panicked, pv := core.Call(func() { _, err = hostParse([]byte(src), true) })
+			if panicked {
+				w.Violation("literal-followers", "C12/escaped-panic", c, "syntax error", fmt.Sprint(pv), src)
+				return
+			}
+			if err == nil {
+				w.Violation("literal-followers", "C12/malformed-accepted:identifier", c, "syntax error", "accepted", fmt.Sprintf("literal %q immediately followed by the identifier character U+%04X accepted: %q", c.Lit, c.CP, src))
+				return
+			}
+		}
+	default:
+		w.Skip("follower-neither-blank-nor-identifier-character")
+	}
+})
+
 func randDigits(r *rand.Rand, n int, sep bool) string {
 	var sb strings.Builder
 	for i := 0; i < n; i++ {
@@ -348,6 +405,26 @@ func runC12(w *core.W) {
 			}
 		}
 		c12Pair(w, c)
+	}
+	// what follows a literal: every code point of the basic plane behind "7", and the blank / identifier classes behind other spellings
+	fi := 0
+	for cp := rune(1); cp <= 0xFFFF; cp++ {
+		if cp >= 0xD800 && cp <= 0xDFFF {
+			continue
+		}
+		fi++
+		if w.Mine(fi) && (!w.Quick() || cp < 0x3100 || cp%7 == 0 || cp > 0xFE00) {
+			c12Follow(w, &LitFollowCase{Lit: "7", CP: cp})
+		}
+	}
+	for _, lit := range []string{"1.5", "2e3", ".5", "1_0", "3.", "1e-2", "0", "12345678901234567890123456789012345678"} {
+		for _, cp := range []rune{' ', '\t', '\v', '\f', '\n', '\r', 0xA0, 0x1680, 0x2000, 0x2003, 0x200A, 0x202F, 0x205F, 0x3000, 0xFEFF, 0x2028, 0x2029, 0x85,
+			'a', 'Z', '$', 0xE9, 0x4E2D, 0xAA, 0x663, 0x968, 0xFF11, 0x301, 0x203F, 0x200C, 0x200D, 0x3B1, 0x10D0, 0xFFDC} {
+			fi++
+			if w.Mine(fi) {
+				c12Follow(w, &LitFollowCase{Lit: lit, CP: cp})
+			}
+		}
 	}
 	r := w.RNG("long")
 	for i, n := 0, w.Pick(80000, 900000); i < n; i++ {
